@@ -144,12 +144,12 @@ def _get_cyclic_f(knots: numpy.ndarray) -> numpy.ndarray:
 
     for i in range(1, n):
         b[i, i] = (h[i - 1] + h[i]) / 3.0
-        b[i, i - 1] = h[i - 1] / 6.0
-        b[i - 1, i] = h[i - 1] / 6.0
+        b[i, i - 1] += h[i - 1] / 6.0
+        b[i - 1, i] += h[i - 1] / 6.0
 
         d[i, i] = -1.0 / h[i - 1] - 1.0 / h[i]
-        d[i, i - 1] = 1.0 / h[i - 1]
-        d[i - 1, i] = 1.0 / h[i - 1]
+        d[i, i - 1] += 1.0 / h[i - 1]
+        d[i - 1, i] += 1.0 / h[i - 1]
 
     return numpy.linalg.solve(b, d)
 
